@@ -6,7 +6,7 @@ From AV.Spec Require Import WorldSpec.
 Arguments N.add : simpl never.
 Arguments N.sub : simpl never.
 Arguments N.mul : simpl never.
-From AV.Proofs Require Export WorldCore WorldSplice WorldRead WorldMore WorldDrain.
+From AV.Proofs Require Export WorldCore WorldSplice WorldRead WorldMore WorldDrain WorldWrong.
 
 Lemma exec_refines_step c w st o r :
   cfg_wf c -> WRep c w st -> ufuse (wuw w) = None ->
@@ -147,8 +147,10 @@ Proof.
     { intros rk' wa' H'. destruct (sp_splice c st (unext (wuw w)) v sb eb pat f rk' n wa' claimed) as [r0|] eqn:Es.
       - injection H' as <-. exact (exec_splice c w st a v sb eb pat f rk' n wa' claimed r0 Hwf HW Hfuse Es Hadm).
       - exact (exec_splice_mv c w st a v sb eb pat f rk' n wa' claimed r Hwf HW Hfuse H' Hadm (adm_pat_of c w v pat Hadmp)). }
-    destruct rk as [| |src]; [exact (Hgen RWrap wrong_at Hr)|exact (Hgen RBox wrong_at Hr)|].
-    destruct wrong_at as [x|]; [exact (Hgen (RLazy src) (Some x) Hr)|].
+    destruct wrong_at as [j|].
+    { assert (Hr2 : sp_splice_wrong c st (unext (wuw w)) v sb eb pat f rk n j claimed = Some r) by (destruct rk; exact Hr).
+      exact (exec_splice_wrong c w st a v sb eb pat f rk n j claimed r Hwf HW Hfuse Hr2 Hadm). }
+    destruct rk as [| |src]; [exact (Hgen RWrap None Hr)|exact (Hgen RBox None Hr)|].
     exact (exec_splice_lazy c w st a v sb eb pat f src n claimed r Hwf HW Hfuse Hr Hadm).
   - (* OClone *)
     cbn [admissible] in Hadm. exact (exec_clone c w st v dst r Hwf HW Hfuse Hr Hadm).
@@ -340,8 +342,9 @@ Proof.
                    end = Some r -> nx <= s_nx r /\ s_out r < 100)
            by (intros rk' wa' H'; destruct (sp_splice c st nx v sb eb pat f rk' n wa' claimed) as [r0|] eqn:Es;
                [injection H' as <-; apply sp_splice_nx in Es; exact Es|apply sp_splice_mv_nx in H'; exact H']);
-         destruct rk as [| |src]; [exact (Hgen RWrap wrong_at H)|exact (Hgen RBox wrong_at H)|];
-         destruct wrong_at as [wa0|]; [exact (Hgen (RLazy src) (Some wa0) H)|];
+         destruct wrong_at as [wa0|];
+         [destruct rk; unfold sp_splice_wrong in H; cbv zeta in H; try discriminate; crush H; cbn; split; lia|];
+         destruct rk as [| |src]; [exact (Hgen RWrap None H)|exact (Hgen RBox None H)|];
          unfold sp_splice_lazy in H; cbv zeta in H; crush H; cbn; split; lia);
     try (apply sp_look_nx in H; exact H);
     try (apply sp_take_nx in H; exact H);
@@ -755,6 +758,9 @@ Definition ex_ops : list op :=
        first is refused, the unwinding destroys the item and drops the iterator *)
     ODrain Erased 9 BUnbounded (BExcluded 1) [(true, KLazyDown 2 KDrop)] FinDrop;
     ODrain Erased 10 BUnbounded BUnbounded [(false, KLazy 1 9 (KPush 9)); (true, KLazy 3 8 KDrop)] FinDrop;
+    (* a splice whose second replacement value has another runtime type: the first one is already in the storage
+       (leaked), the refused one and the one behind it are destroyed, the vector keeps the elements in front of the range *)
+    OSplice Erased 9 (BIncluded 1) (BExcluded 2) [] FinDrop RBox 3 (Some 1) 3;
     OViews 8 ].                                   (* view geometry of the full StackN<2,8>: 6 bytes of elements, no spare *)
 
 Example ex_spec_defined : exists rs, spec_run ex_cfg [] 1 ex_ops = Some rs /\ length rs = length ex_ops.
@@ -791,7 +797,7 @@ Example ex_outcomes :
      (0,0,[]); (2,3,[]); (0,0,[1]); (0,0,[1; 1; 70; 0]); (0,0,[0]);
      (0,0,[3; 1; 61; 2; 1; 67; 1; 1; 66; 0]); (0,0,[2; 1; 61; 1]); (2,3,[]);
      (0,0,[]); (0,0,[]); (0,0,[1; 1; 73; 0]); (0,0,[2; 1; 74; 1; 1; 76; 0]);
-     (0,0,[1; 1; 75; 0; 78; 79]); (2,3,[]); (0,0,[0; 6; 6; 0; 0; 2; 6; 0; 0])].
+     (0,0,[1; 1; 75; 0; 78; 79]); (2,3,[]); (2,2,[]); (0,0,[0; 6; 6; 0; 0; 2; 6; 0; 0])].
 Proof. vm_compute. reflexivity. Qed.
 
 (** ** Corollaries in the vocabulary of the properties *)
